@@ -511,6 +511,10 @@ func (searchExp *SearchExpression) GetAllBlockBloomKeysToSearch(isCaseInsensitiv
 	if colVal.IsRegex() {
 		return allKeys, originalAllKeys, true, nil
 	}
+	if colVal.Dtype == SS_DT_BOOL {
+		// boolean columns have no bloom, there is nothing to look up
+		return allKeys, originalAllKeys, false, nil
+	}
 	if len(colVal.StringVal) == 0 {
 		return allKeys, originalAllKeys, false, fmt.Errorf("SearchExpression.GetAllBlockBloomKeysToSearch: unable to extract column name from request")
 	}
